@@ -52,4 +52,24 @@ MUTATIONS = [
 """, """        ase = self.noise_profile(spectral_info)
         spectral_info.add_ase(ase if self.effective_gain <= 24 else -ase * 0.5)
 """)]},
+    {'id': 'c03-psi-pump-baud', 'props': ['C03'], 'tests': 'tests/test_science_utils.py',
+     'desc': '_psi uses the pump baud rate where the cut baud rate belongs (cancels for uniform combs)',
+     'edits': [('gnpy/core/science_utils.py', """        psi = (arcsinh(pi ** 2 * asymptotic_length * abs(beta2) * cut_baud_rate * right_extreme) -
+               arcsinh(pi ** 2 * asymptotic_length * abs(beta2) * cut_baud_rate * left_extreme)) / 2""",
+                """        psi = (arcsinh(pi ** 2 * asymptotic_length * abs(beta2) * pump_baud_rate * right_extreme) -
+               arcsinh(pi ** 2 * asymptotic_length * abs(beta2) * pump_baud_rate * left_extreme)) / 2""")]},
+    {'id': 'c03-beta2-cut-only', 'props': ['C03'], 'tests': 'tests/test_science_utils.py',
+     'desc': '_psi uses the cut channel beta2 instead of the mean (visible only with dispersion slope)',
+     'edits': [('gnpy/core/science_utils.py', "        beta2 = (cut_beta + pump_beta) / 2\n        right_extreme",
+                "        beta2 = cut_beta\n        right_extreme")]},
+    {'id': 'c03-gamma-of-pump', 'props': ['C03'], 'tests': 'tests/test_science_utils.py',
+     'desc': 'analytic GN uses the pump channel gamma instead of the cut channel gamma',
+     'edits': [('gnpy/core/science_utils.py', """        beta2 = fiber.beta2(frequency)
+        gamma = outer(fiber.gamma(frequency), ones(nch))
+        length = fiber.params.length""", """        beta2 = fiber.beta2(frequency)
+        gamma = outer(ones(nch), fiber.gamma(frequency))
+        length = fiber.params.length""")]},
+    {'id': 'c03-xpm-weight', 'props': ['C03'], 'tests': 'tests/test_info.py',
+     'desc': 'XPM weight 16/27 instead of 32/27',
+     'edits': [('gnpy/core/science_utils.py', "    XPM_WEIGHT = 2 * (16.0 / 27.0)", "    XPM_WEIGHT = (16.0 / 27.0)")]},
 ]
